@@ -26,7 +26,7 @@ package sortref
 //@   modifies nothing
 //@ func (s SplitKey) BuildName(segments, startIndex, adder)
 //@   aspect safe
-//@   requires 0 <= startIndex && startIndex <= len(s)
+//@   requires 0 <= startIndex && startIndex <= len(s) && adder != nil
 //@   modifies nothing
 //@ func (s SplitKey) ResponseName()
 //@   aspect safe
@@ -40,7 +40,9 @@ package sortref
 //@ func (s SplitKey) IsStatusCodeResponse()
 //@   aspect safe
 //@   modifies nothing
+//@   ensures result ==> len(s) > 4
 //@ func (s SplitKey) isKeyName(i)
 //@   aspect safe
 //@   requires i <= len(s)
 //@   modifies nothing
+//@   loop 1: invariant idx < len(s)
